@@ -242,6 +242,34 @@ Eval vm_compute in (List.length cases, List.length (filter (fun c => negb (ok c)
             chk.violation("ghe-gfunction", c, {"head_x": x[:4]}, "the short-time values are used only below the first long-time point")
         if c["H_eval"] in o["stored_heights"]:
             pass
+    # ---------------- one object, family recomputed for other height brackets after it was used (what a re-sized or re-bracketed study does)
+    rb_cases = [{"nx": 2, "ny": 2, "months": 12, "H": 100.0, "loads": {"kind": "balanced", "scale": 5000.0, "seed": 1}, "pipe": "SINGLEUTUBE",
+                 "brackets": [[60.0, 135.0], [90.0, 130.0], [100.0, 200.0]]}]
+    if not quick:
+        rb_cases.append({"nx": 1, "ny": 2, "months": 12, "H": 80.0, "loads": {"kind": "balanced", "scale": 3000.0, "seed": 1}, "pipe": "COAXIAL",
+                         "brackets": [[40.0, 90.0], [40.0, 90.0], [70.0, 150.0]]})
+    with ThreadPoolExecutor(max_workers=NPROC) as ex:
+        r5 = list(ex.map(lambda c: run_impl("gf_drv.py", {"mode": "rebracket", "cases": [c]}, timeout=900), rb_cases))
+    for c, rr in zip(rb_cases, r5):
+        if isinstance(rr, dict) and "_error" in rr:
+            chk.broken.append({"name": "re-bracketed family run failed in the harness", "detail": rr["_error"][-300:]})
+            continue
+        o = rr[0]
+        chk.cov["evaluations"] += 1
+        if not o.get("ok"):
+            chk.broken.append({"name": "re-bracketed family run raised", "detail": json.dumps(o)[:300]})
+            continue
+        for st in o["stages"]:
+            for a in st["at"]:
+                nontrivial += 1
+                if not a["ok"]:
+                    chk.violation("rebracket", c, {"bracket": st["bracket"], "height": a["h"], "exception": a["exc"], "msg": a.get("msg")},
+                                  "interpolating the long-time family at a stored height succeeds (family recomputed on a used object)")
+                    break
+                if a["dev"] > 1e-9 or not a["increasing"]:
+                    chk.violation("rebracket", c, {"bracket": st["bracket"], "height": a["h"], "max_dev": a["dev"]},
+                                  "at a stored height the simulated curve carries the stored, radius-corrected long-time values (family recomputed on a used object)")
+                    break
     # ---------------- analytical finite-line-source anchor (validated by computation only)
     fl = [{"nx": 1, "ny": 1, "B": 5.0, "H": 100.0, "D": 2.0, "rb": 0.075, "stride": 4}, {"nx": 2, "ny": 3, "B": 5.0, "H": 150.0, "D": 4.0, "rb": 0.06, "stride": 6},
           {"nx": 1, "ny": 2, "B": 5.0, "H": 30.0, "D": 2.0, "rb": 0.075, "stride": 4},          # a short borehole: H / r_b = 400
